@@ -27,6 +27,11 @@ What is modelled, line by line from `time.rs`:
   go to one-shot ports (the first request wins) and are acted on when the target's task next runs,
   kill before stop before messages (`Target.run`); `drain()` closes admission at once, the
   backlog is still handled, then the actor exits with reason `"Drained"`.
+* `post_stop`: when the message loop ends by a stop or a drain the status becomes `Stopping`
+  (`closedAt`) and `post_stop` runs; the actor is gone — its supervisor is told, `exit` — only when
+  `post_stop` returns. The harness can gate `post_stop` (`hold` arms the gate, `psrelease` opens
+  it), so that timers expire, are created and tick while the target sits in `post_stop`
+  (`Target.stopping`); a kill skips `post_stop`, and a kill that arrives during `post_stop` cancels it.
 
 Small steps (`Op`): `tick d` moves the clock, `fire i` polls timer task `i` once, `target` lets the
 target's task run until idle, `abort i`, `stop/kill/drain` are API calls on the target from outside,
@@ -113,6 +118,11 @@ structure Target where
   /-- ghost: `stop`/`kill` was called from outside (not by a timer) -/
   manualStop : Bool := false
   manualKill : Bool := false
+  /-- harness: `post_stop` waits for `psrelease` -/
+  psGate : Bool := false
+  /-- the message loop has ended (status `Stopping`) and `post_stop` is running: the exit
+  reason to come and the instant the loop ended -/
+  stopping : Option (Reason × Nat) := none
   deriving DecidableEq, Repr
 
 /-- `send_message` succeeds (status < Draining and admission open). -/
@@ -136,17 +146,31 @@ def Target.drain (T : Target) (now : Nat) : Target :=
   else { T with draining := true, closedAt := some (T.closedAt.getD now) }
 
 def Target.exitWith (T : Target) (r : Reason) (now : Nat) : Target :=
-  { T with exit := some (r, now), closedAt := some (T.closedAt.getD now), mbox := [] }
+  { T with exit := some (r, now), closedAt := some (T.closedAt.getD now), mbox := [], stopping := none }
 
-/-- The target's task runs until idle: kill > stop > messages (> drain marker). -/
+/-- the message loop ends with reason `r`: status `Stopping`, the mailbox is never looked at again,
+`post_stop` starts — and returns at once unless the harness gates it -/
+def Target.endLoop (T : Target) (r : Reason) (now : Nat) : Target :=
+  if T.psGate then { T with stopping := some (r, now), closedAt := some (T.closedAt.getD now), mbox := [] }
+  else T.exitWith r now
+
+/-- The target's task runs until idle: kill > stop > messages (> drain marker); inside a gated
+`post_stop` only a kill is looked at. -/
 def Target.run (T : Target) (now : Nat) : Target :=
   if T.exit.isSome then T
   else if T.killReq then T.exitWith .killed now
+  else if T.stopping.isSome then T
   else match T.stopReq with
-    | some r => T.exitWith r now
+    | some r => T.endLoop r now
     | none =>
       let T' := { T with handled := T.handled ++ T.mbox.map (fun m => (m.1, m.2, now)), mbox := [] }
-      if T.draining then T'.exitWith .drained now else T'
+      if T.draining then T'.endLoop .drained now else T'
+
+/-- harness: `post_stop` may return; if the target sits in it, the actor exits now -/
+def Target.release (T : Target) (now : Nat) : Target :=
+  match T.stopping with
+  | some (r, _) => { T with psGate := false }.exitWith r now
+  | none => { T with psGate := false }
 
 def Timer.finish (τ : Timer) (r : Res) (now : Nat) : Timer := { τ with res := r, finAt := some now }
 
@@ -220,6 +244,8 @@ inductive Op
   | stop | kill | drain
   | target
   | mark
+  /-- harness: gate `post_stop` / open the gate -/
+  | hold | psrelease
   deriving DecidableEq, Repr
 
 def step (s : State) : Op → State
@@ -244,6 +270,8 @@ def step (s : State) : Op → State
   | .drain => { s with target := s.target.drain s.now }
   | .target => { s with target := s.target.run s.now }
   | .mark => { s with visits := s.visits ++ [s.now] }
+  | .hold => { s with target := { s.target with psGate := true } }
+  | .psrelease => { s with target := s.target.release s.now }
 
 def steps (s : State) (ops : List Op) : State := ops.foldl step s
 
@@ -258,6 +286,7 @@ inductive MOp
   | advStop (d : Nat) | advKill (d : Nat) | advDrain (d : Nat)
   | abort (i : Nat)
   | stop | kill | drain
+  | hold | psrelease
   deriving DecidableEq, Repr
 
 def fireAll (n : Nat) : List Op := (List.range n).map Op.fire
@@ -276,6 +305,8 @@ def expand (s : State) : MOp → List Op
   | .stop => [.stop, .target, .mark]
   | .kill => [.kill, .target, .mark]
   | .drain => [.drain, .target, .mark]
+  | .hold => [.hold, .mark]
+  | .psrelease => [.psrelease, .target, .mark]
 
 def mstep (s : State) (m : MOp) : State := steps s (expand s m)
 def mrun (s : State) (ms : List MOp) : State := ms.foldl mstep s
@@ -318,6 +349,15 @@ def closedOk (cl : Option Nat) (τ : Timer) : Bool :=
   | some tc => !τ.kind.sends || decide ((τ.sentAt.filter (fun t => decide (tc < t))).length ≤ 1)
   | none => true
 
+/-- the handle of `send_after` tells whether the message was accepted: `Ok` ⇒ the send happened no
+later than the instant the target stopped accepting, `Err` ⇒ the target had stopped accepting -/
+def acceptOk (cl : Option Nat) (τ : Timer) : Bool :=
+  τ.kind != .sendAfter ||
+    (match τ.res with
+     | .ok => (match cl with | some tc => τ.sentAt.all (fun t => decide (t ≤ tc)) | none => true)
+     | .err => (match cl with | some tc => τ.sentAt.all (fun t => decide (tc ≤ t)) | none => false)
+     | _ => true)
+
 def timerOk (s : State) (τ : Timer) : Bool :=
   -- never early, measured from the API call
   earlyOk τ.created τ.period 0 τ.sentAt
@@ -327,6 +367,7 @@ def timerOk (s : State) (τ : Timer) : Bool :=
   && (τ.kind.oneShot || τ.res != .err)
   && finOk s.now τ
   && closedOk s.target.closedAt τ
+  && acceptOk s.target.closedAt τ
 
 /-- Where an exit reason can come from. -/
 def reasonOk (s : State) (r : Reason) (te : Nat) : Bool :=
